@@ -102,6 +102,12 @@ REG.contract("opaque.shape", assumed=True, note="property", params=dict(self=Opa
              ensures=["result == np_shape(self)"])
 REG.contract("opaque.size", assumed=True, note="property", params=dict(self=OpaqueT), result=Int,
              ensures=["result == uf_int('np.size', self)"])
+REG.contract("opaque.dtype", assumed=True, note="property", params=dict(self=OpaqueT), result=OpaqueT,
+             ensures=["result == opq(uf('np.dtype', self))"])
+REG.contract("opaque.kind", assumed=True, note="property", params=dict(self=OpaqueT), result=Str,
+             ensures=["result == uf_str('np.dtype.kind', self)"])
+REG.contract("opaque.ndim", assumed=True, note="property", params=dict(self=OpaqueT), result=Int,
+             ensures=["result == len(np_shape(self))"])
 REG.contract("opaque.shape.setter", assumed=True, params=dict(self=OpaqueT, shape=SeqOf(Int)), result=OpaqueT,
              ensures=["result == np_reshape(self, shape)", "np_shape(result) == shape",
                       "np_is_double(result) == np_is_double(self)"],
@@ -124,6 +130,13 @@ REG.contract("opaque.__setitem__", assumed=True, params=dict(self=OpaqueT, idx=D
 REG.contract("np.polynomial.polynomial.polyval", assumed=True, params=dict(x=Dyn, c=Dyn), result=OpaqueT,
              ensures=["result == np_polyval(x, c)"],
              note="polyval(x, c) = sum_k c[k] * x**k, elementwise over x, in double precision")
+
+
+@REG.specfunc()
+def uf_str(ex, p, name, *args):
+    nm = z3.simplify(name.t).as_string()
+    f = z3.Function("ufs_" + nm.replace(".", "_"), *([Val] * len(args) + [StrS]))
+    return VStr(f(*[box(ex.deref(p, a)) for a in args]))
 
 
 @REG.specfunc()
